@@ -265,6 +265,18 @@ func TestC09_History(t *testing.T) {
 		os.WriteFile(dbp, gen.EmitYAML(c08Main), 0o644)
 		queries := []string{"list", "compress directory", "disk", "zzqx nothing", "running processes"}
 		nOld := rapid.IntRange(0, 3).Draw(t, "old-searches")
+		if rapid.IntRange(0, 2).Draw(t, "full-history") == 0 {
+			// a history at (or one below) its 100-entry bound, so that recording also trims
+			n := rapid.SampledFrom([]int{100, 99, 100}).Draw(t, "full-n")
+			sh := history.NewSearchHistory(base.History(), 100)
+			for i := 0; i < n; i++ {
+				sh.AddEntry(fmt.Sprintf("old query %d", i), i%7, "", time.Duration(i)*time.Millisecond)
+			}
+			if err := sh.Save(); err != nil {
+				t.Fatalf("harness: %v", err)
+			}
+			nOld = 0
+		}
 		for i := 0; i < nOld; i++ {
 			runWtf(base, dir, []string{"--no-color", "-d", dbp, "--", rapid.SampledFrom(queries).Draw(t, "oldq")})
 		}
@@ -321,7 +333,7 @@ func TestC09_History(t *testing.T) {
 					got2, err2 := loadHist(h.History())
 					if err2 != nil {
 						o.msg = fmt.Sprintf("after a later ordinary search the history no longer loads: %v", err2)
-					} else if _, m := histRelation(got, got2, fq); m != "" || len(got2) != len(got)+1 {
+					} else if st2, m := histRelation(got, got2, fq); m != "" || st2 != "new" || (len(got2) != len(got)+1 && len(got) < 100) {
 						o.msg = fmt.Sprintf("a later ordinary search did not simply append to the surviving history (%d -> %d entries) %s", len(got), len(got2), m)
 					}
 				}
@@ -354,6 +366,18 @@ func histRelation(old, got []history.SearchEntry, q string) (string, string) {
 		}
 		if same {
 			return "old", ""
+		}
+		// a full history: the oldest entry dropped, the new search appended
+		if len(old) > 1 && got[len(got)-1].Query == q {
+			shifted := true
+			for i := 0; i+1 < len(old); i++ {
+				if !eq(old[i+1], got[i]) {
+					shifted = false
+				}
+			}
+			if shifted {
+				return "new", ""
+			}
 		}
 		// immediate repeat: last entry replaced
 		if len(old) > 0 && old[len(old)-1].Query == q && got[len(got)-1].Query == q {
